@@ -12,6 +12,9 @@ class _Rec:
     def __init__(self):
         self.calls = []
 
+    def add(self, item):          # (bodies of other modules record through a method: an attribute chain ending in the list would be hashed)
+        self.calls.append(item)
+
 
 REC = _Rec()
 
@@ -41,11 +44,17 @@ def make(i):
         ("frame", lambda: pd.DataFrame({"a": [1, 2], "b": ["x", None]})), ("frame-empty", lambda: pd.DataFrame()),
         ("partition", lambda: InMemoryPartition({"k1": 1, "k2": [2, "x"], "k3": None})),
         ("partition-empty", lambda: InMemoryPartition({})),
+        # results of more than 100 rows (the memory cache estimates the size of large pandas objects from a sample)
+        ("index-strings-150", lambda: pd.Index(["t%03d" % i * (1 + i % 3) for i in range(150)])),
+        ("index-dates-150", lambda: pd.date_range("2020-01-01", periods=150)),
+        ("index-multi-120", lambda: pd.MultiIndex.from_product([range(12), list("abcdefghij")])),
+        ("series-300", lambda: pd.Series([float(i) for i in range(300)], name="big")),
+        ("frame-200", lambda: pd.DataFrame({"a": list(range(200)), "b": ["r%d" % i for i in range(200)]})),
     ]
     return table[i][0], table[i][1]()
 
 
-NVALUES = 44
+NVALUES = 49
 
 
 @memento_function(cluster="cv", version="1")
